@@ -1080,6 +1080,8 @@ package vanguard
 //@   ensures[C02] meta.compression != "" ==> hdr(headers, "Content-Encoding") == meta.compression
 //@   ensures[C02] meta.compression == "" ==> hdrHas(headers, "Content-Encoding") == old(hdrHas(headers, "Content-Encoding"))
 //@   ensures[C12] !meta.hasTimeout ==> hdrHas(headers, "Connect-Timeout-Ms") == old(hdrHas(headers, "Connect-Timeout-Ms"))
+//@   ensures[C12] meta.hasTimeout && meta.timeout >= 0 ==> hdrCount(headers, "Connect-Timeout-Ms") == 1 && isdigits(hdr(headers, "Connect-Timeout-Ms")) && decval(hdr(headers, "Connect-Timeout-Ms")) * 1000000 <= meta.timeout
+//@   ensures[C12] meta.hasTimeout && meta.timeout >= 0 && meta.timeout < 10000000000 * 1000000 ==> meta.timeout - decval(hdr(headers, "Connect-Timeout-Ms")) * 1000000 < 1000000
 //@   ensures[C05] hdrSameExcept(headers, "Content-Type", "Content-Encoding", "Accept-Encoding", "Connect-Protocol-Version", "Connect-Timeout-Ms")
 //@   modifies mapobj(headers), #LIB0
 //@ func (connectStreamServerProtocol).addProtocolRequestHeaders
@@ -1088,6 +1090,8 @@ package vanguard
 //@   ensures[C02] meta.compression != "" ==> hdr(headers, "Connect-Content-Encoding") == meta.compression
 //@   ensures[C02] meta.compression == "" ==> hdrHas(headers, "Connect-Content-Encoding") == old(hdrHas(headers, "Connect-Content-Encoding"))
 //@   ensures[C12] !meta.hasTimeout ==> hdrHas(headers, "Connect-Timeout-Ms") == old(hdrHas(headers, "Connect-Timeout-Ms"))
+//@   ensures[C12] meta.hasTimeout && meta.timeout >= 0 ==> hdrCount(headers, "Connect-Timeout-Ms") == 1 && isdigits(hdr(headers, "Connect-Timeout-Ms")) && decval(hdr(headers, "Connect-Timeout-Ms")) * 1000000 <= meta.timeout
+//@   ensures[C12] meta.hasTimeout && meta.timeout >= 0 && meta.timeout < 10000000000 * 1000000 ==> meta.timeout - decval(hdr(headers, "Connect-Timeout-Ms")) * 1000000 < 1000000
 //@   ensures[C05] hdrSameExcept(headers, "Content-Type", "Connect-Content-Encoding", "Connect-Accept-Encoding", "Connect-Timeout-Ms")
 //@   modifies mapobj(headers), #LIB0
 //@ func (restServerProtocol).addProtocolRequestHeaders
@@ -1096,6 +1100,7 @@ package vanguard
 //@   ensures[C02] meta.compression != "" ==> hdr(headers, "Content-Encoding") == meta.compression
 //@   ensures[C02] meta.compression == "" ==> hdrHas(headers, "Content-Encoding") == old(hdrHas(headers, "Content-Encoding"))
 //@   ensures[C12] !meta.hasTimeout ==> hdrHas(headers, "X-Server-Timeout") == old(hdrHas(headers, "X-Server-Timeout"))
+//@   ensures[C12] meta.hasTimeout ==> hdrCount(headers, "X-Server-Timeout") == 1 && hdr(headers, "X-Server-Timeout") != ""
 //@   ensures[C05] hdrSameExcept(headers, "Content-Type", "Content-Encoding", "Accept-Encoding", "X-Server-Timeout")
 //@   modifies mapobj(headers), #LIB0
 
@@ -1237,7 +1242,9 @@ package vanguard
 // C12: the REST form of a timeout is the exact number of seconds (no rounding before formatting).
 //@ func restEncodeTimeout
 //@   atcall[C12] (time.Duration).Seconds: arg(0) == timeout
-//@   ensures[C12] timeout == 0 ==> result == ""
+// an empty X-Server-Timeout value means "no timeout" to every reader of the header: a timeout,
+// zero included, is never conveyed as the empty string
+//@   ensures[C12] result != ""
 // C01 / C02: a REST backend gets a body exactly when the rule names one ("*" included: an empty,
 // non-nil field list), with the rule's own HTTP method.
 //@ func (restServerProtocol).requestLine
